@@ -137,6 +137,10 @@ def stimuli_of(labels) -> tuple:
             out.append(['wait', 8.0])
         elif name == 'PeerIn':
             out.append(['peerin'])
+        elif name == 'GetParent':
+            out.append(['parent'])
+        elif name == 'ParentDrops':
+            out.append(['parentdrop'])
     if wake:
         out.append(['reconn', 'hang', 'ok', None])
 
@@ -254,6 +258,8 @@ def frame_of(msg, M, nm: Names, ports) -> list:
     if isinstance(msg, M.BranchLevel.Request):
         return ['level', str(msg.level)]
     if isinstance(msg, M.BranchRoot.Request):
+        if msg.username == 'pp0':
+            return ['root', 'pp']                      # the scripted distributed parent (a branch root)
         return ['root', 'me' if msg.username == me else nm.abstract(msg.username, 'user')]
     if isinstance(msg, M.ToggleParentSearch.Request):
         return ['psearch', b(msg.enable)]
@@ -653,6 +659,45 @@ class Runner:
                         if client.network.server_connection.state.name != 'CONNECTED':
                             break
 
+            async def get_parent():
+                """The server proposes a potential parent, the client connects to it, the peer announces that it
+                is a branch root.  `parent_up` is recorded once the server has been told the new position."""
+                sess = srv.sessions[-1] if srv.sessions else None
+                if sess is None or sess.closed or client.session is None or st.get('parent_ep') is not None:
+                    return
+                accepted = loop.create_future()
+
+                async def on_accept(ep):
+                    if not accepted.done():
+                        accepted.set_result(ep)
+                pr = ScriptedPeer(net, 'pp0', 62010)
+                pr.on_accept = on_accept
+                if ('*', 62010) not in net.listeners:
+                    peers.append(await pr.listen())
+                n0 = len(srv.requests(M.BranchLevel.Request))
+                sess.send(M.PotentialParents.Response(entries=[M.PotentialParent('pp0', '10.0.0.9', 62010)]))
+                try:
+                    ep = await asyncio.wait_for(accepted, 5.0)
+                except asyncio.TimeoutError:
+                    rec('note', what='no parent connection')
+                    return
+                await ep.read_frame()                                   # PeerInit
+                ep.send_message(M.DistributedBranchLevel.Request(0))    # level 0: the peer is its own root
+                await settle()
+                if len(srv.requests(M.BranchLevel.Request)) == n0:
+                    rec('note', what='peer not taken as parent')
+                    return
+                st['parent_ep'] = ep
+                st['parent_down'] = False
+                rec('parent_up')
+
+                async def watch():
+                    while await ep.read_frame() is not None:
+                        pass
+                    st['parent_down'] = True
+                    rec('parent_down')
+                st['aux2'] = loop.create_task(watch(), name='harness-parent-watch')
+
             async def spawn(kind, variant):
                 sess = srv.sessions[-1] if srv.sessions else None
                 slow = variant == 'delay'
@@ -803,6 +848,14 @@ class Runner:
                 elif op == 'scanfin':
                     release_scan()
                     rec('note', what='scan released')
+                    await quiesce(0.05)
+                elif op == 'parent':
+                    await get_parent()
+                    await quiesce(0.05)
+                elif op == 'parentdrop':
+                    ep = st.get('parent_ep')
+                    if ep is not None and not st.get('parent_down'):
+                        ep.close()              # the parent goes away; the watcher records it
                     await quiesce(0.05)
                 elif op == 'peerin':
                     lp = [p for p in (pclear if 'clear' in ports_a else 0, pobf if 'obf' in ports_a else 0) if p]
@@ -1082,6 +1135,7 @@ def run(chk: Check, args):
         'live': lambda: tlc.run_tlc(SPEC, 'MC_live.cfg', workers=2, timeout=900),
         'cover': lambda: schedules_from_graph(chk, 'MC_cover.cfg', 'cover'),
         'coverscan': lambda: schedules_from_graph(chk, 'MC_cover_scan.cfg', 'coverscan'),
+        'coverparent': lambda: schedules_from_graph(chk, 'MC_cover_parent.cfg', 'coverparent'),
         'sim': lambda: (schedules_from_simulation('MC_big.cfg', 'simbig', 1500, 45, chk.seed + 1) if thorough
                         else schedules_from_simulation('MC_quick.cfg', 'simquick', 300, 40, chk.seed + 1)),
     }
@@ -1139,10 +1193,20 @@ def run(chk: Check, args):
         for k, v in sweep.items():
             scheds.setdefault(k, v)
     else:
-        keys = select(scheds, 1100, chk.rng)
+        keys = select(scheds, 1000, chk.rng)
     more = [k for k in (sorted(scans, key=repr) if thorough else select(scans, 300, chk.rng)) if k not in scheds]
     for k in more:
         scheds[k] = scans[k]
+    keys += more
+    parents, pinfo = out['coverparent']
+    chk.add_model('Session cover graph, distributed parent found / lost (2 settings vectors, dumped)', pinfo['res'])
+    chk.log(f"cover graph (parent): {pinfo['states']} states, {pinfo['edges']} edges, {pinfo['schedules']} schedules")
+    for a in ('GetParent', 'ParentDrops'):
+        if not pinfo['taken'].get(a):
+            raise MachineryFailure(f'vacuity: {a} never taken in the parent cover graph')
+    more = [k for k in (sorted(parents, key=repr) if thorough else select(parents, 250, chk.rng)) if k not in scheds]
+    for k in more:
+        scheds[k] = parents[k]
     keys += more
     extra = [k for k in select(sims, 600 if thorough else 250, chk.rng) if k not in scheds]
     for k in extra:
@@ -1182,6 +1246,7 @@ def run(chk: Check, args):
     chk.cov['task_kinds_seen_pending'] = sorted({k for tr in traces for e in tr if e['ev'] == 'q'
                                                  for k in e.get('tasks', [])})
     chk.cov['stops_held_by_a_slow_close'] = sum(1 for tr in traces if any(e['ev'] == 'stall' for e in tr))
+    chk.cov['runs_with_a_distributed_parent'] = sum(1 for tr in traces if any(e['ev'] == 'parent_up' for e in tr))
     chk.cov['loss_reasons_seen'] = sorted({e['reason'] for tr in traces for e in tr
                                            if e['ev'] == 'conn' and e['st'] == 'closed'})
 
